@@ -11,8 +11,9 @@ import (
 	"crypto/elliptic"
 	"crypto/rand"
 	"crypto/rsa"
+	"crypto/sha256"
+	"encoding/base64"
 	"encoding/json"
-	"errors"
 	"fmt"
 	"sort"
 	"time"
@@ -81,16 +82,7 @@ func getFacts(mt string, env []byte) *facts {
 	f.Parse = true
 	c, err := e.Verify()
 	if err != nil {
-		var e1 *signature.SignatureEnvelopeNotFoundError
-		var e2 *signature.InvalidSignatureError
-		var e3 *signature.SignatureIntegrityError
-		switch {
-		case errors.As(err, &e1), errors.As(err, &e2), errors.As(err, &e3):
-			f.Verify = 1
-		default:
-			f.Verify = 2
-		}
-		// the switch of verifyIntegrity is a type switch on the error itself
+		// verifyIntegrity uses a type switch on the error itself
 		switch err.(type) {
 		case *signature.SignatureEnvelopeNotFoundError, *signature.InvalidSignatureError, *signature.SignatureIntegrityError:
 			f.Verify = 1
@@ -198,9 +190,10 @@ type envelope struct {
 	Format string `json:"format"`
 	Chain  string `json:"chain"`
 	Plugin bool   `json:"plugin_attr"`
-	bytes  []byte
-	facts  *facts
-	id     int
+	bytes   []byte
+	facts   *facts
+	id      int
+	sibling *envelope // same signer and attributes, decodable payload (for the control run)
 }
 
 const pluginName = "c01plug"
@@ -208,15 +201,58 @@ const pluginName = "c01plug"
 var envCounter int
 
 func (w *world) sign(format, chain string, payload []byte, ctype string, plugin bool, desc string) *envelope {
+	e, err := w.trySign(format, chain, payload, ctype, plugin, desc)
+	if err != nil {
+		panic(fmt.Sprintf("c01: sign %s: %v", desc, err))
+	}
+	return e
+}
+
+func (w *world) trySign(format, chain string, payload []byte, ctype string, plugin bool, desc string) (*envelope, error) {
 	spec := EnvSpec{Format: format, Chain: w.chains[chain], Payload: payload, ContentType: ctype, SigningTime: w.now.Add(-time.Hour), Agent: "c01/" + chain}
 	if plugin {
 		spec.ExtAttrs = []signature.Attribute{{Key: "io.cncf.notary.verificationPlugin", Critical: true, Value: pluginName}}
 	}
 	b, err := SignEnvelope(spec)
-	if err != nil {
-		panic(fmt.Sprintf("c01: sign %s: %v", desc, err))
+	if err != nil && format == MtJWS {
+		// the JWS signer of notation-core-go only accepts JSON objects as
+		// payload: sign such an envelope by hand (ES256 over protected.payload)
+		b, err = w.handJWS(chain, payload, ctype, plugin)
+		desc += " [JWS signed by hand]"
 	}
-	return newEnvelope(desc, format, chain, plugin, b)
+	if err != nil {
+		return nil, err
+	}
+	return newEnvelope(desc, format, chain, plugin, b), nil
+}
+
+// handJWS signs a JWS envelope whose payload is arbitrary bytes: the
+// protected header and the unprotected header are those of an envelope
+// signed by notation-core-go for the same chain; the signature is computed
+// here with the leaf key (P-256 only).
+func (w *world) handJWS(chain string, payload []byte, ctype string, plugin bool) ([]byte, error) {
+	key, ok := w.chains[chain][0].Key.(*ecdsa.PrivateKey)
+	if !ok || key.Curve != elliptic.P256() {
+		return nil, fmt.Errorf("handJWS: chain %s has no P-256 key", chain)
+	}
+	tpl := w.sign(MtJWS, chain, []byte(`{"targetArtifact":{}}`), ctype, plugin, "template")
+	parts := jwsParts(tpl.bytes)
+	var prot string
+	if err := json.Unmarshal(parts["protected"], &prot); err != nil {
+		return nil, err
+	}
+	pl := base64.RawURLEncoding.EncodeToString(payload)
+	h := sha256.Sum256([]byte(prot + "." + pl))
+	r, s, err := ecdsa.Sign(rand.Reader, key, h[:])
+	if err != nil {
+		return nil, err
+	}
+	sig := make([]byte, 64)
+	r.FillBytes(sig[:32])
+	s.FillBytes(sig[32:])
+	parts["payload"], _ = json.Marshal(pl)
+	parts["signature"], _ = json.Marshal(base64.RawURLEncoding.EncodeToString(sig))
+	return jwsJoin(parts), nil
 }
 
 func newEnvelope(desc, format, chain string, plugin bool, b []byte) *envelope {
@@ -225,8 +261,7 @@ func newEnvelope(desc, format, chain string, plugin bool, b []byte) *envelope {
 }
 
 func payloadJSON(t tgt) []byte {
-	d := ocispec.Descriptor{MediaType: t.MT, Digest: "", Size: t.Sz, Annotations: t.Ann}
-	m := map[string]any{"mediaType": d.MediaType, "digest": t.Dg, "size": d.Size}
+	m := map[string]any{"mediaType": t.MT, "digest": t.Dg, "size": t.Sz}
 	if len(t.Ann) > 0 {
 		m["annotations"] = t.Ann
 	}
